@@ -204,6 +204,7 @@ class Runner:
             return names.index(x) + 1
         choice = {}           # index into exp -> (uids of ALL frames carrying the key, does the answer change the state)
         trunc = [None]        # index into exp after which the model is not compared any more (see compare_model)
+        soft = [None]         # index into exp after which a difference from the model is legitimate (see compare_model)
         last_obs = {}         # matrix -> answers of the latest complete observation
         touched = set()       # matrices an operation was addressed to since then
         mats = []
@@ -393,7 +394,8 @@ class Runner:
                              -1 if f.header_id is None else f.header_id, int(bool(op[3]))])
                 exp.append([1, uid_of(f)])
             elif kind in ("rem", "delp"):
-                f = db.frames[op[2]] if op[2] < len(db.frames) else mk_frame(0x7FF, False, 0)
+                foreign = op[2] >= len(db.frames)
+                f = mk_frame(0x7FF, False, 0) if foreign else db.frames[op[2]]
                 try:
                     if kind == "rem":
                         db.remove_frame(f)
@@ -402,6 +404,10 @@ class Runner:
                     exp.append([0])
                 except ValueError:
                     exp.append([3])
+                if foreign:
+                    # removing an object that is not in the matrix changes nothing; whether the call raises or returns is
+                    # not the property's business: "nothing removed" on both sides (the model says RErr)
+                    exp[-1] = [3]
                 mops.append([4 if kind == "rem" else 5, mi, uid_of(f) if id(f) in uid else -1])
             elif kind == "deln":
                 named = [f for f in db.frames if f.name == nm(op[2])]
@@ -464,21 +470,37 @@ class Runner:
                 mops.append([10, op[1], op[2], op[3], int(bool(op[4]))])
                 in_src = [f for f in mats[op[1]].frames
                           if f.arbitration_id.id == op[3] and f.arbitration_id.extended == bool(op[4])]
+                in_dst = any(f.arbitration_id.id == op[3] and f.arbitration_id.extended == bool(op[4]) for f in mats[op[2]].frames)
                 try:
                     r = self.copy_frame(C.ArbitrationId(op[3], bool(op[4])), mats[op[1]], mats[op[2]])
                     exp.append([2, int(bool(r))])
                 except AttributeError as ex:
-                    # "Copying Frame " + None.name: expected exactly when the source has no such frame
+                    # "Copying Frame " + None.name when the source has no such frame
                     exp.append([3])
                     if in_src:
                         raised_in_edit(step, op, ex)
                 except Exception as ex:  # noqa
                     exp.append([3])
                     raised_in_edit(step, op, ex)
+                if not in_src and exp[-1] != [2, 1]:
+                    # nothing to copy: the property does not say whether copy_frame then raises or returns False, only
+                    # that nothing changes; "nothing copied" on both sides (the model says RErr)
+                    exp[-1] = [3]
+                elif len(in_src) > 1 and not in_dst and soft[0] is None and \
+                        len({(f.name, f.header_id, f.is_j1939) for f in in_src}) > 1:
+                    # several source frames carry the id: WHICH of them frame_by_id hands to copy_frame is open
+                    soft[0] = len(exp) - 1
                 register(op[2], step, op)
             elif kind == "merge":
                 target = op[1]
                 mops.append([11, op[1], op[2]])
+                if soft[0] is None:
+                    groups_ = {}
+                    for f in mats[op[2]].frames:
+                        groups_.setdefault((f.arbitration_id.id, bool(f.arbitration_id.extended)), set()).add((f.name, f.header_id, f.is_j1939))
+                    have = {(f.arbitration_id.id, bool(f.arbitration_id.extended)) for f in mats[op[1]].frames}
+                    if any(len(v) > 1 and k not in have for k, v in groups_.items()):
+                        soft[0] = len(exp)
                 try:
                     mats[op[1]].merge([mats[op[2]]])
                     exp.append([0])
@@ -526,7 +548,7 @@ class Runner:
                     memos.append(None)
             else:
                 memos.append(None)
-        return dict(mops=mops, exp=exp, choice=choice, trunc=trunc[0], state=state, memos=memos, failures=failures, nlook=nlook, skipped=skipped,
+        return dict(mops=mops, exp=exp, choice=choice, trunc=trunc[0], soft=soft[0], state=state, memos=memos, failures=failures, nlook=nlook, skipped=skipped,
                     nframes=[len(d.frames) for d in mats])
 
 
@@ -553,12 +575,22 @@ def compare_model(res, out_line, info=None):
     today) takes the first / the memoised one.  There the two answers only have to be carriers both (res["choice"]).  If the
     answers differ and the answer feeds the state (frame_by_id fills the memo, changeFrameId edits the frame found, del_frame by
     name removes the frame found) the rest of the history and the final state are not compared (truncated).
+    The same holds after copy_frame / merge had to pick one of several source frames with the id that differ in name or header id
+    (res["soft"]): a difference from the model after that point ends the comparison instead of counting as a disagreement.
+    The content of the memo is internal state the property does not constrain (WHEN it is emptied is open as long as every answer
+    is a frame of the matrix carrying the key): it is compared for information only (info["memo_differs"]).
     info (dict): exact = no such difference occurred; truncated = comparison stopped early."""
     groups = core.parse_out(out_line)
     exp = res["exp"]
     n = len(exp)
     if info is not None:
-        info["exact"], info["truncated"] = True, False
+        info["exact"], info["truncated"], info["memo_differs"] = True, False, False
+    soft = res["soft"]
+
+    def open_end():
+        if info is not None:
+            info["exact"], info["truncated"] = False, True
+        return None
     upto = n if res["trunc"] is None else res["trunc"]
     if groups[:n] != exp or upto < n:
         k = 0
@@ -567,6 +599,8 @@ def compare_model(res, out_line, info=None):
             if g != exp[k]:
                 c = res["choice"].get(k)
                 if c is None or g is None or len(g) != 2 or g[0] != 1 or g[1] not in c[0]:
+                    if soft is not None and k > soft:
+                        return open_end()
                     return dict(at_model_op=k, op=res["mops"][k] if k < len(res["mops"]) else None, model=g, impl=exp[k],
                                 carriers=c[0] if c else None)
                 if info is not None:
@@ -589,6 +623,8 @@ def compare_model(res, out_line, info=None):
         return dict(what="matrix count / object count", model=rest[:1], impl=res["state"][0])
     for j in range(nm):
         if rest[1 + 2 * j] != res["state"][1 + j]:
+            if soft is not None:
+                return open_end()
             return dict(what="frame list of matrix %d" % j, model=rest[1 + 2 * j], impl=res["state"][1 + j])
         if res["memos"][j] is not None:
             flat = rest[2 + 2 * j]
@@ -596,8 +632,8 @@ def compare_model(res, out_line, info=None):
             for t in range(len(flat) - 3, -1, -3):        # oldest first, so that the newest entry of a key wins
                 d[(flat[t], flat[t + 1])] = flat[t + 2]
             mm = sorted((k[0], k[1], v) for k, v in d.items())
-            if mm != res["memos"][j]:
-                return dict(what="memo of matrix %d" % j, model=mm, impl=res["memos"][j])
+            if mm != res["memos"][j] and info is not None:
+                info["memo_differs"] = True
     return None
 
 
@@ -716,6 +752,8 @@ def worker_explore(args):
                 stats["hist"]["tie-modulo-choice-among-carriers"] = stats["hist"].get("tie-modulo-choice-among-carriers", 0) + 1
             if info["truncated"]:
                 stats["hist"]["tie-truncated-after-open-choice"] = stats["hist"].get("tie-truncated-after-open-choice", 0) + 1
+            if info["memo_differs"]:
+                stats["hist"]["memo-content-differs-from-model(informational)"] = stats["hist"].get("memo-content-differs-from-model(informational)", 0) + 1
             if d is None and info["exact"] and want_lines and len(stats["lines"]) < want_lines and len(h) >= 3:
                 stats["lines"].append((r["mops"], r["exp"]))
         batch.clear()
@@ -872,7 +910,7 @@ def worker_random(args):
     it = iter(outs)
     info = {}
     exact = set()
-    nchoice = ntrunc = 0
+    nchoice = ntrunc = nmemo = 0
     for i, (ops, r) in enumerate(out):
         if r["failures"]:
             continue
@@ -886,12 +924,13 @@ def worker_random(args):
             exact.add(i)
         nchoice += not info["exact"]
         ntrunc += info["truncated"]
+        nmemo += info["memo_differs"]
     keep = set(sorted(exact)[:3])     # a few exactly agreeing histories go to the in-Coq shard
     slim = [(ops, dict(failures=r["failures"], nlook=r["nlook"], mops=r["mops"] if i in keep else None,
                        exp=r["exp"] if i in keep else None, nm=r["state"][0][1], nobj=r["state"][0][2]))
             for i, (ops, r) in enumerate(out)]
     return slim, ties, len(outs), dict(load_failed=runner.load_failed, memo_after_load=runner.memo_after_load,
-                                       choice=nchoice, truncated=ntrunc)
+                                       choice=nchoice, truncated=ntrunc, memo=nmemo)
 
 
 # ---- shrinking ----
@@ -1220,6 +1259,7 @@ def run(chk):
                 reader_stats[k] += rstat[k]
             chk.count("tie-modulo-choice-among-carriers", rstat["choice"])
             chk.count("tie-truncated-after-open-choice", rstat["truncated"])
+            chk.count("memo-content-differs-from-model(informational)", rstat["memo"])
             for ops, r in slim:
                 edits = sum(1 for o in ops if o[0] not in ("new", "newdbc", "load", "obs", "lid", "lname", "lpgn", "lhdr"))
                 chk.case((tag, json.dumps(ops)), edits > 0)
@@ -1287,7 +1327,7 @@ def run(chk):
         d = compare_model(r, o)
         if d is not None:
             chk.tie_break("history (cmd 1001)", dict(ops=ops, universe="rand"), d.get("model"), d)
-    chk.ties["correspondence"] = {"suite": "histories (cmd 1001): every call's result, final frame lists, final memos", "cases": tie_n,
+    chk.ties["correspondence"] = {"suite": "histories (cmd 1001): every call's result modulo open choices, final frame lists", "cases": tie_n,
                                   "disagreements": len(chk.tie_breaks)}
     chk.rng.shuffle(shard_pool)
     shard = [(1002, mops, exp) for mops, exp in shard_pool[:250]]
